@@ -50,10 +50,10 @@ BODY_CLASSES = [
     "empty_object", "unrelated_keys", "json_array", "json_number", "json_string", "json_true", "json_null",
     "empty_body", "html", "torn", "flipped_byte", "invalid_utf8", "bom_prefixed", "utf16", "data_scalar", "data_list",
     "whitespace_padded", "errors_same_message", "data_empty_object", "data_false", "data_empty_and_empty_errors", "empty_errors_null_data", "errors_null_probe", "errors_string_probe",
-    "errors_drawn", "raw_control_char",
+    "errors_drawn", "raw_control_char", "data_with_floats", "odd_but_legal_json",
 ]
 QUICK_STATUSES = [200, 201, 204, 299, 100, 199, 300, 301, 304, 400, 401, 404, 429, 500, 502, 503, 599]
-VIAS = ["execute", "get_item", "list_items", "ping", "create_item", "search_now"]
+VIAS = ["execute", "get_item", "list_items", "ping", "create_item", "search_now", "custom_query"]
 
 
 def setup(tier):
@@ -122,6 +122,24 @@ def make_body(cls: str, data: Any, knob: int) -> bytes:
         doc = [J({"data": data, "extensions": {"note": "a@@b"}}), J({"errors": [{"message": "line1@@line2"}], "data": data}),
                J({"data": data, "k@@ey": 1}), J({"data": {"x": "@@"}})][(knob // 6) % 4]
         return doc.replace(b"@@", ctl)
+    if cls == "data_with_floats":
+        # numbers that are not integers (and literals only a float can hold), in the data and next to it
+        lits = [b"1.5", b"0.1", b"-2.5e-3", b"1E2", b"1E400", b"123456789012345678901234567890", b"-0.0"]
+        body = J({"data": {"nonce": "@@N", "ratio": "@@1", "list": ["@@2", 1, True]}, "extensions": {"cost": "@@3"}})
+        for i_, tag_ in enumerate((b'"@@1"', b'"@@2"', b'"@@3"')):
+            body = body.replace(tag_, lits[(knob + i_) % len(lits)])
+        return body.replace(b'"@@N"', J(data if isinstance(data, (str, int)) else "n"))
+    if cls == "odd_but_legal_json":
+        # legal JSON that stricter parsers refuse: an escaped lone surrogate, nesting deeper than 200 levels, duplicate keys,
+        # a huge exponent
+        deep: Any = 1
+        for _ in range(260):
+            deep = [deep]
+        ext = [{"cut": "inside an emoji \ud83d"}, {"deep": deep}, {"n": 1}][knob % 3]
+        body = J({"data": data, "extensions": ext})
+        if knob % 3 == 2:
+            body = body.replace(b'"extensions": {"n": 1}', b'"extensions": {"n": 1, "n": 2E0, "n": 1E+999}')
+        return body
     if cls == "data_empty_object":
         return J({"data": {}})
     if cls == "data_false":
@@ -205,6 +223,9 @@ def simple_call(via, k):
     if via == "list_items":
         return {"via": via, "args": {"first": ("int", k), "color": ("unset",)}, "multipart": False, "kw": kw}
     if via == "ping":
+        return {"via": via, "args": {}, "multipart": False, "kw": kw}
+    if via == "custom_query":
+        # the generated query() of the custom operation builder: get_data, then the raw data handed to the caller
         return {"via": via, "args": {}, "multipart": False, "kw": kw}
     if via == "search_now":
         return {"via": via, "args": {"query": ("str", "q%d" % k), "variables": ("int", k), "data": ("unset",), "response": ("str", "r%d" % k)}, "multipart": False, "kw": kw}
@@ -322,11 +343,12 @@ def judge(cfg, recs, server, info, sent, res: RunResult, variant):
                     V("multi-error-data", "%s: .data %s != partial data %s" % (tag, _short(oc[2]["data"]), _short(exp[2])), **key)
         else:  # data
             D = exp[1]
-            if via == "execute":
+            if via in ("execute", "custom_query"):
                 if oc[0] != "ok":
-                    V("data-not-returned", "%s: get_data raised %s %s" % (tag, oc[1], _short(oc[2])), got=_got(oc), **key)
-                elif oc[1] != D:
-                    V("data-changed", "%s: get_data returned %s, the data member is %s" % (tag, _short(oc[1]), _short(D)), **key)
+                    V("data-not-returned", "%s: %s raised %s %s" % (tag, "get_data" if via == "execute" else "query()", oc[1], _short(oc[2])),
+                      got=_got(oc), **key)
+                elif not _same(oc[1], D):
+                    V("data-changed", "%s: returned %s, the data member is %s" % (tag, _short(oc[1]), _short(D)), **key)
             else:
                 M = getattr(N, RESULT_MODEL[via])
                 try:
@@ -344,6 +366,19 @@ def judge(cfg, recs, server, info, sent, res: RunResult, variant):
                     if oc[0] != "exc" or oc[1] != want[1]:
                         V("model-mismatch", "%s: data %s does not validate (%s) but the method outcome is %s" % (
                             tag, _short(D), want[1], _short(oc)), got=_got(oc), **key)
+
+
+def _same(a, b) -> bool:
+    """Equal values of equal types, all the way down ("returned unchanged": 1.5 is not Decimal('1.5'), 1 is not True)."""
+    if type(a) is not type(b):
+        return False
+    if isinstance(a, dict):
+        return a.keys() == b.keys() and all(_same(a[k], b[k]) for k in a)
+    if isinstance(a, list):
+        return len(a) == len(b) and all(_same(x, y) for x, y in zip(a, b))
+    if isinstance(a, float) and a != a:
+        return b != b
+    return a == b
 
 
 def _got(oc):
